@@ -102,6 +102,24 @@ type (
 	}
 )
 
+// Validate validates the MQTTProxy spec.
+func (spec *Spec) Validate() error {
+	for i, rule := range spec.Rules {
+		if rule == nil || rule.When == nil {
+			return fmt.Errorf("rules[%d]: when is required", i)
+		}
+	}
+	if _, err := getPipelineMap(spec); err != nil {
+		return err
+	}
+	if spec.UseTLS {
+		if _, err := spec.tlsConfig(); err != nil {
+			return err
+		}
+	}
+	return nil
+}
+
 func (spec *Spec) tlsConfig() (*tls.Config, error) {
 	var certificates []tls.Certificate
 
